@@ -105,3 +105,19 @@ pub fn drive(profile: &str, seed: u64, n: usize, depth: usize, out: &mut dyn Wri
     }
     st
 }
+
+/// The context of spec/CelEvalMC.tla (Env0).
+pub fn env0(vl: &[i64]) -> Vec<(String, Value)> {
+    use cel_interpreter::objects::{Key, Map};
+    use std::collections::HashMap;
+    use std::sync::Arc;
+    let mut m = HashMap::new();
+    m.insert(Key::String(Arc::new("a".to_string())), Value::Int(1));
+    m.insert(Key::String(Arc::new("b".to_string())), Value::Int(0));
+    vec![
+        ("vi".to_string(), Value::Int(7)),
+        ("x".to_string(), Value::Int(40)),
+        ("vl".to_string(), Value::List(Arc::new(vl.iter().map(|i| Value::Int(*i)).collect()))),
+        ("vm".to_string(), Value::Map(Map { map: Arc::new(m) })),
+    ]
+}
